@@ -292,10 +292,11 @@ func (f ftfProbe) Mint(ctx sdk.Context, msg *ftftypes.MsgMint) (resp *ftftypes.M
 type LedgerDouble struct {
 	svc  corestore.KVStoreService
 	Fold bool
+	MintingDenom string // minting denom
 }
 
 func NewLedgerDouble(svc corestore.KVStoreService, fold bool) *LedgerDouble {
-	return &LedgerDouble{svc: svc, Fold: fold}
+	return &LedgerDouble{svc: svc, Fold: fold, MintingDenom: MintDenom}
 }
 
 func (l *LedgerDouble) norm(denom string) string {
@@ -333,10 +334,10 @@ func (l *LedgerDouble) Init(ctx context.Context, funded map[string]*big.Int, all
 		if err != nil {
 			panic(err)
 		}
-		l.put(ctx, balKey(acc, MintDenom), v)
+		l.put(ctx, balKey(acc, l.MintingDenom), v)
 		total.Add(total, v)
 	}
-	l.put(ctx, "sup/"+MintDenom, total)
+	l.put(ctx, "sup/"+l.MintingDenom, total)
 	l.put(ctx, "allow", allowance)
 	if paused {
 		l.put(ctx, "paused", big.NewInt(1))
@@ -378,14 +379,14 @@ func (l *LedgerDouble) SendCoinsFromAccountToModule(ctx context.Context, sender 
 }
 
 func (l *LedgerDouble) GetMintingDenom(ctx context.Context) ftftypes.MintingDenom {
-	return ftftypes.MintingDenom{Denom: MintDenom}
+	return ftftypes.MintingDenom{Denom: l.MintingDenom}
 }
 
 func (l *LedgerDouble) denomOK(d string) bool {
 	if l.Fold {
-		return strings.EqualFold(d, MintDenom)
+		return strings.EqualFold(d, l.MintingDenom)
 	}
-	return d == MintDenom
+	return d == l.MintingDenom
 }
 
 func (l *LedgerDouble) Burn(ctx sdk.Context, msg *ftftypes.MsgBurn) (*ftftypes.MsgBurnResponse, error) {
